@@ -397,7 +397,7 @@ def gen_oracle_case(rng):
             extra.append({"type": "background-geopoint", "name": name, "trigger": f"${{{trig}}}"})
             expect_trig.append((trig, name, "geo", ""))
         else:
-            calc = rng.choice(["1 + 1", "now()", "'x'"])
+            calc = rng.choice(["1 + 1", "now()", "'x'", "yes", "true", "FALSE", "no"])      # truth-value spellings: converted in binds, and a triggered calculation has no bind calculate
             extra.append({"type": "calculate", "name": name, "calculation": calc, "trigger": f"${{{trig}}}"})
             expect_trig.append((trig, name, "sv", calc))
     rows = rows + extra
